@@ -216,6 +216,7 @@ class AbiAnalysis:
         self.k, self.name, self.addr, self.arity, self.ret_bits = k, name, addr, arity, ret_bits
         self.report, self.stats = report, stats
         self.seen = set()
+        self.args_read = set()
 
     def rep(self, a, sig, what):
         if (sig, a) in self.seen:
@@ -232,14 +233,19 @@ class AbiAnalysis:
         for r in CALLEE_SAVED:
             regs[r] = ("C", r)
         regs["rsp"] = ("SP", 0)
-        return dict(regs=regs, vec={}, fl={"C": False, "O": False, "Z": False}, df=False, stack={}, bad_sp=False)
+        return dict(regs=regs, vec={}, fl={"C": False, "O": False, "Z": False}, df=False, stack={}, bad_sp=False,
+                    af=frozenset(ARG_REGS[:self.arity]))      # argument registers that may still hold the caller's argument
 
     @staticmethod
     def copy(st):
-        return dict(regs=dict(st["regs"]), vec=dict(st["vec"]), fl=dict(st["fl"]), df=st["df"], stack=dict(st["stack"]), bad_sp=st["bad_sp"])
+        return dict(regs=dict(st["regs"]), vec=dict(st["vec"]), fl=dict(st["fl"]), df=st["df"], stack=dict(st["stack"]), bad_sp=st["bad_sp"],
+                    af=st.get("af", frozenset()))
 
     def join(self, a, b, at):
         ch = False
+        if not b.get("af", frozenset()) <= a.get("af", frozenset()):
+            a["af"] = a.get("af", frozenset()) | b["af"]
+            ch = True
         for r in GPR:
             if r == "rsp":
                 if a["regs"]["rsp"] != b["regs"]["rsp"]:
@@ -328,6 +334,19 @@ class AbiAnalysis:
         self.stats["instructions"] += 1
         if op.startswith("NOOP") or mn.startswith("nop"):
             return                        # multi-byte NOP: its memory operand is padding, nothing is read
+        # which arguments does the kernel look at?  (syntactic: any read of a register that may still hold the argument)
+        af = st.get("af", frozenset())
+        if af:
+            for x in uses:
+                if x["top"] in af:
+                    self.args_read.add(x["top"])
+            for m in mems:
+                for key in ("base", "index"):
+                    if key in m and m[key]["top"] in af:
+                        self.args_read.add(m[key]["top"])
+            killed = {x["top"] for x in defs} & af
+            if killed:
+                st["af"] = af - killed
         # ---- reads --------------------------------------------------------------------------
         regs_u = [x for x in ins["uses"]]
         same = ZERO_IDIOM.match(mn) and len({x["top"] for x in ins["uses"]}) == 1 and not mems \
@@ -573,8 +592,12 @@ def ret_bits(t):
     return 64
 
 
+UNUSED_ARGS = []
+
+
 def run(prop="C14", tier="quick"):
     res = dict(findings=[], stats=collections.Counter(), samples=[], notes=[])
+    del UNUSED_ARGS[:]
     files = kernel_files(tier)
     fixture = os.path.join(VERIF, "selftest", "fixtures", "abi_fix.as")
     objs = assemble(files + [(fixture, "abi_fix")])
@@ -613,6 +636,15 @@ def run(prop="C14", tier="quick"):
             an = AbiAnalysis(k, name, addr, arity, rb, lambda a, sig, what: found.append((a, sig, what)), res["stats"])
             ood = an.run()
             res["stats"]["entries_analysed"] += 1
+            if p is not None and src != fixture:
+                res["stats"]["argument_registers"] += arity
+                for i in range(arity):
+                    if ARG_REGS[i] not in an.args_read:
+                        UNUSED_ARGS.append((relpath(src), name, i, ARG_REGS[i]))
+                        found.append((addr, "arg-ignored:%s" % ARG_REGS[i],
+                                      "%s: no path from the entry reads %s while it still holds argument %d of the C prototype (%s): the kernel "
+                                      "cannot compute a function of that argument (every one of the library's kernels reads all its arguments)"
+                                      % (name, ARG_REGS[i], i + 1, ", ".join((x.get("t", "?") if isinstance(x, dict) else str(x)) for x in p["params"])[:80])))
             rel = relpath(src)
             for a, why in ood:
                 key = (rel, why)
